@@ -98,6 +98,34 @@ func LeafHash(elemHash types.Hash256, leafIndex uint64) types.Hash256 {
 // multiproof nodes), sometimes scattered over different trees of the forest.
 // Sub-trees containing none of the elements have pseudo-random roots.
 func MakeProofsConsistent(rng *rand.Rand, txns []types.V2Transaction) uint64 {
+	k := uint64(0)
+	for _, e := range ProofElements(txns) {
+		if e.SE.LeafIndex != types.UnassignedLeafIndex {
+			k++
+		}
+	}
+	// leaf count: below 2^62 (an accumulator with 2^63 leaves is not a reachable consensus state;
+	// AssignProofs can be called directly to go beyond)
+	var n uint64
+	switch rng.IntN(5) {
+	case 0:
+		n = k + 1 + uint64(rng.IntN(4)) // dense small forest
+	case 1:
+		n = uint64(1)<<uint(1+rng.IntN(61)) + uint64(rng.IntN(3)) // near power of two
+	default:
+		n = rng.Uint64() >> uint(2+rng.IntN(58))
+	}
+	if n < 2*k+2 && rng.IntN(5) != 0 || n <= k {
+		n += 2*k + 2
+	}
+	AssignProofs(rng, txns, n, nil)
+	return n
+}
+
+// AssignProofs is MakeProofsConsistent for a given leaf count n (> number of
+// non-ephemeral elements) and, optionally, given leaf indices (in
+// ProofElements order, ephemeral elements skipped; must be distinct and < n).
+func AssignProofs(rng *rand.Rand, txns []types.V2Transaction, n uint64, indices []uint64) {
 	all := ProofElements(txns)
 	var els []ProofElement
 	for _, e := range all {
@@ -105,28 +133,15 @@ func MakeProofsConsistent(rng *rand.Rand, txns []types.V2Transaction) uint64 {
 			els = append(els, e)
 		}
 	}
-	k := uint64(len(els))
-	// leaf count
-	var n uint64
-	switch rng.IntN(5) {
-	case 0:
-		n = k + 1 + uint64(rng.IntN(4)) // dense small forest
-	case 1:
-		n = uint64(1)<<uint(1+rng.IntN(62)) + uint64(rng.IntN(3)) // near power of two
-	default:
-		n = rng.Uint64() >> uint(rng.IntN(60))
-	}
-	if n < 2*k+2 && rng.IntN(5) != 0 || n <= k {
-		n += 2*k + 2
-	}
-	if n >= types.UnassignedLeafIndex {
-		n = types.UnassignedLeafIndex - 1
-	}
 	// distinct indices
 	used := map[uint64]bool{}
 	var last uint64
 	for i := range els {
 		var idx uint64
+		if indices != nil {
+			els[i].SE.LeafIndex = indices[i]
+			continue
+		}
 		for tries := 0; ; tries++ {
 			switch {
 			case i > 0 && rng.IntN(3) == 0 && tries < 4:
@@ -190,5 +205,4 @@ func MakeProofsConsistent(rng *rand.Rand, txns []types.V2Transaction) uint64 {
 		}
 		e.SE.MerkleProof = proof
 	}
-	return n
 }
